@@ -752,3 +752,120 @@ func EditionFamily(seed uint64, headLang int, noTitle bool) []GenDoc {
 	}
 	return out
 }
+
+// ResponsiveImagePages: responsive images over the cross-product of container
+// (picture, figure, div, video, bare img), attribute carrying the candidate list
+// (srcset and the usual lazy-loading names), number of candidates (1 to 8),
+// number of <source> children and kind of fallback <img> — forty per page
+// between paragraphs.
+func ResponsiveImagePages() []GenDoc {
+	type shape struct {
+		cont, attr string
+		k, sources int
+		img        int
+	}
+	var shapes []shape
+	for ci, cont := range []string{"picture", "figure", "div", "video", "img"} {
+		for ai, attr := range []string{"srcset", "data-srcset", "datasrcset", "data-src", "data-original"} {
+			for k := 1; k <= 8; k++ {
+				shapes = append(shapes, shape{cont, attr, k, (k + ai) % 3, (k + ci + ai) % 3})
+			}
+		}
+	}
+	var out []GenDoc
+	const per = 40
+	for lo := 0; lo < len(shapes); lo += per {
+		var sb strings.Builder
+		fmt.Fprintf(&sb, "<html><head><title>Responsive images %d</title></head><body><div id=\"content\"><h1>Responsive images %d</h1>\n", lo, lo)
+		for n := lo; n < lo+per && n < len(shapes); n++ {
+			s := shapes[n]
+			if (n-lo)%4 == 0 {
+				sb.WriteString("<p>")
+				for w := 0; w < 40; w++ {
+					fmt.Fprintf(&sb, "ri%d_%d ", n, w)
+				}
+				sb.WriteString("</p>\n")
+			}
+			var list []string
+			for i := 0; i < s.k; i++ {
+				list = append(list, fmt.Sprintf("/img/resp-%d.jpg %dw", i, 320*(i+1)))
+			}
+			val := strings.Join(list, ", ")
+			if s.cont == "img" {
+				fmt.Fprintf(&sb, `<img %s="%s" width="600" height="400" alt="r%d">`+"\n", s.attr, val, n)
+				continue
+			}
+			fmt.Fprintf(&sb, `<%s %s="%s">`, s.cont, s.attr, val)
+			for i := 0; i < s.sources; i++ {
+				fmt.Fprintf(&sb, `<source %s="/img/src-%d-%d.webp">`, []string{"srcset", "data-srcset"}[(n+i)%2], n, i)
+			}
+			switch s.img {
+			case 1:
+				fmt.Fprintf(&sb, `<img src="/img/fallback-%d.jpg" width="600" height="400">`, n)
+			case 2:
+				fmt.Fprintf(&sb, `<img data-src="/img/fallback-%d.jpg" src="data:image/gif;base64,R0lGODlhAQABAAAAACw=">`, n)
+			}
+			if s.cont == "figure" {
+				fmt.Fprintf(&sb, "<figcaption>caption %d</figcaption>", n)
+			}
+			fmt.Fprintf(&sb, "</%s>\n", s.cont)
+		}
+		sb.WriteString("</div></body></html>")
+		out = append(out, GenDoc{Bytes: []byte(sb.String()), URL: "http://example.com/responsive/2", Origin: fmt.Sprintf("responsive:%d", lo), Features: []string{"responsive-images"}, UTF8: true})
+	}
+	return out
+}
+
+// ContextSwapPairs: pairs of pages that use the same class / id strings in
+// opposite surroundings — in the first page every element carrying one of the
+// names sits inside a table cell, a list item, a quotation, a figure, a form …,
+// in the second the same names sit on top-level blocks of the article, each with
+// a good paragraph of text. Whatever the library remembers about a name it
+// learnt in the other surroundings. Names: the class names this generator
+// sprinkles and the short tokens harvested from the library's own literals.
+func ContextSwapPairs(maxPairs int) [][2]GenDoc {
+	names := append([]string{}, sprinkleClasses...)
+	for _, v := range VocabValues {
+		ok := len(v) >= 3 && len(v) <= 24
+		for _, c := range v {
+			if !(c >= 'a' && c <= 'z' || c >= 'A' && c <= 'Z' || c >= '0' && c <= '9' || c == '-' || c == '_') {
+				ok = false
+			}
+		}
+		if ok {
+			names = append(names, v)
+		}
+	}
+	wrapOpen := []string{"<table><tr><td>", "<ul><li>", "<blockquote>", "<figure>", "<form>", `<div style="display:none">`, "<table><tbody><tr><th>x</th><td>", "<aside>"}
+	wrapClose := []string{"</td></tr></table>", "</li></ul>", "</blockquote>", "</figure>", "</form>", "</div>", "</td></tr></tbody></table>", "</aside>"}
+	var out [][2]GenDoc
+	const per = 10
+	for lo := 0; lo < len(names) && len(out) < maxPairs; lo += per {
+		var a, b strings.Builder
+		fmt.Fprintf(&a, "<html><head><title>Context swap A %d</title></head><body><div id=\"content\"><h1>Context swap A %d</h1>\n", lo, lo)
+		fmt.Fprintf(&b, "<html><head><title>Context swap B %d</title></head><body><div id=\"content\"><h1>Context swap B %d</h1>\n", lo, lo)
+		for k := lo; k < lo+per && k < len(names); k++ {
+			n := names[k]
+			attr := fmt.Sprintf(` class="%s"`, n)
+			if k%3 == 1 {
+				attr = fmt.Sprintf(` id="%s"`, n)
+			} else if k%3 == 2 {
+				attr = fmt.Sprintf(` class="%s" id="%s"`, n, n)
+			}
+			var txt strings.Builder
+			for w := 0; w < 60; w++ {
+				fmt.Fprintf(&txt, "cs%d_%d ", k, w)
+			}
+			w := (k / per) % len(wrapOpen)
+			fmt.Fprintf(&a, "%s<div%s><p>%s</p></div>%s\n<p>%s</p>\n", wrapOpen[(w+k)%len(wrapOpen)], attr, txt.String(), wrapClose[(w+k)%len(wrapOpen)], txt.String())
+			fmt.Fprintf(&b, "<div%s><p>%s</p></div>\n", attr, txt.String())
+		}
+		a.WriteString("</div></body></html>")
+		b.WriteString("</div></body></html>")
+		out = append(out, [2]GenDoc{
+			{Bytes: []byte(a.String()), URL: "http://example.com/swap/a", Origin: fmt.Sprintf("contextswap:a:%d", lo), Features: []string{"context-swap"}, UTF8: true},
+			{Bytes: []byte(b.String()), URL: "http://example.com/swap/b", Origin: fmt.Sprintf("contextswap:b:%d", lo), Features: []string{"context-swap"}, UTF8: true},
+		})
+	}
+	return out
+}
